@@ -64,7 +64,7 @@ fn c03() -> PropSpec {
         quick_runs: 200000,
         thorough_runs: 4000000,
         required_probes: &["unparseable_buffer_delivered", "rejected_buffer", "retry_after_401"],
-        extra: None,
+        extra: Some(crate::oracle_tap::extra_c03),
         run: None,
         assumptions: COMMON_ASSUMPTIONS,
     }
